@@ -216,10 +216,12 @@ def rule_R2(ctx, repo, classes):
                 for attr, val, stmt in astq.self_attr_stores(fn):
                     if attr in params:
                         # a property setter of that very attribute is a parameter writer
-                        key = "%s.%s:%s" % (k.qual, mname, attr)
+                        key = "%s:%s(rewritten)" % (k.qual, attr)
                         if val is not None and astq.is_self_attr(val, attr=attr):
                             continue  # self.p = self.p
-                        seen.setdefault(key, (k, fn, stmt, attr, set()))[4].add(c.name)
+                        ent = seen.setdefault(key, (k, fn, stmt, attr, set(), set()))
+                        ent[4].add(c.name)
+                        ent[5].add(mname)
             ctx.count("R2_methods_scanned", len(k.methods))
     MUTATORS = ("append", "extend", "insert", "pop", "remove", "sort", "reverse", "clear", "setdefault", "popitem")
     mut_seen = {}
@@ -277,19 +279,19 @@ def rule_R2(ctx, repo, classes):
                         and astq.is_self_attr(n.func.value) and n.func.value.attr in alias:
                     tgt = n.func.value.attr
                 if tgt is not None:
-                    key = "%s.%s:%s(in-place)" % (k.qual, fn.name, alias[tgt])
+                    key = "%s:%s(in-place)" % (k.qual, alias[tgt])
                     mut_seen.setdefault(key, (k, fn, n, tgt, alias[tgt], set()))[5].add(c.name)
     for key, (k, fn, node, tgt, p_, users) in sorted(mut_seen.items()):
         via = "" if tgt == p_ else " through its alias self.%s" % tgt
         ctx.violation("R2", key, "constructor parameter `%s` (of %s) is mutated in place%s in %s.%s"
                       % (p_, ", ".join(sorted(users)[:4]), via, k.name, fn.name), ctx.loc(k.module, node))
-    for key, (k, fn, stmt, attr, users) in sorted(seen.items()):
-        ctx.violation("R2", key, "`self.%s` is a constructor parameter (of %s) and is overwritten in %s.%s"
-                      % (attr, ", ".join(sorted(users)[:4]), k.name, fn.name), ctx.loc(k.module, stmt))
+    for key, (k, fn, stmt, attr, users, meths) in sorted(seen.items()):
+        ctx.violation("R2", key, "`self.%s` is a constructor parameter (of %s) and is overwritten in %s.%s (reachable from fit / apply-type methods)"
+                      % (attr, ", ".join(sorted(users)[:4]), k.name, "/".join(sorted(meths))), ctx.loc(k.module, stmt))
     # positive evidence: classes whose non-constructor methods store no parameter
     for c in classes:
         params = ctor_params(repo, c)
-        if params and not any(v[4] and c.name in v[4] for v in seen.values()):
+        if params and not any(c.name in v[4] for v in seen.values()):
             ctx.ok("R2", c.qual, "no method outside the constructor stores any of %d parameters" % len(params),
                    ctx.loc(c.module, c.node), nontrivial=True)
 
@@ -633,12 +635,17 @@ def rule_R5(ctx, repo, flow):
     sp = repo.func(META, "_HeterogenousMetaEstimator._set_params")
     g = CFG(sp)
     n_whole = n_repl = n_super = None
+    repl_name = None
+    for c in astq.calls(sp):
+        if isinstance(c.func, ast.Attribute) and dotted(c.func.value) == "self" and len(c.args) == 3 and dotted(c.args[0]) == "attr" \
+                and isinstance(c.args[2], ast.Call) and astq.call_name(c.args[2]) == "pop" and c.func.attr in meta.methods:
+            repl_name = c.func.attr  # the component-replacement helper, discovered by its role (attr, name, params.pop(name))
     for n in g.nodes:
         for c in n.calls():
             nm = astq.call_name(c)
             if nm == "setattr" and len(c.args) == 3 and dotted(c.args[0]) == "self" and dotted(c.args[1]) == "attr":
                 n_whole = n
-            elif nm == "_replace_estimator":
+            elif repl_name is not None and nm == repl_name:
                 n_repl = n
             elif nm == "set_params" and isinstance(c.func, ast.Attribute) and isinstance(c.func.value, ast.Call) \
                     and dotted(c.func.value.func) == "super":
@@ -676,7 +683,7 @@ def rule_R5(ctx, repo, flow):
                   "whole-list step is not `if attr in params: setattr(self, attr, params.pop(attr))`", ctx.loc(mod, n_whole.stmt))
         # replacement: only names without the separator that are component names; value popped
         from ..boolx import Atomizer, PathConditions, implies, neg as bneg, atom as batom, atoms_of, FALSE as BFALSE, disj as bdisj
-        pc = PathConditions(sp, Atomizer(), mark=lambda st: any(astq.call_name(c) == "_replace_estimator" for c in astq.calls(st))
+        pc = PathConditions(sp, Atomizer(), mark=lambda st: any(astq.call_name(c) == repl_name for c in astq.calls(st))
                             and not isinstance(st, (ast.For, ast.If, ast.While)))
         cond = BFALSE
         for st_, c_ in pc.marked:
@@ -689,10 +696,12 @@ def rule_R5(ctx, repo, flow):
             r1, _ = implies(cond, bneg(batom(sep_atoms[0])))
             r2, _ = implies(cond, batom(name_atoms[0]))
             sep_ok = bool(r1) and bool(r2)
-        rc = [c for c in n_repl.calls() if astq.call_name(c) == "_replace_estimator"][0]
-        b = astq.bind_call(meta.methods["_replace_estimator"], rc, skip_self=True)
-        pop_ok = b is not None and isinstance(b.get("new_val"), ast.Call) and astq.call_name(b["new_val"]) == "pop" \
-            and dotted(b.get("attr")) == "attr"
+        rc = [c for c in n_repl.calls() if astq.call_name(c) == repl_name][0]
+        b = astq.bind_call(meta.methods[repl_name], rc, skip_self=True)
+        third = astq.param_names(meta.methods[repl_name], skip_self=True)[2] if len(astq.param_names(meta.methods[repl_name], skip_self=True)) >= 3 else None
+        first = astq.param_names(meta.methods[repl_name], skip_self=True)[0] if astq.param_names(meta.methods[repl_name], skip_self=True) else None
+        pop_ok = b is not None and third is not None and isinstance(b.get(third), ast.Call) and astq.call_name(b[third]) == "pop" \
+            and dotted(b.get(first)) == "attr"
         ctx.check(sep_ok and pop_ok, "R5", "_set_params:replacement", "components are replaced only for names without `__` that are component names, value popped",
                   "component replacement is not restricted to component names without `__` (condition: %s) / does not consume the entry" % (
                       __import__("sa.boolx", fromlist=["show"]).show(cond)), ctx.loc(mod, n_repl.stmt))
@@ -727,11 +736,16 @@ def rule_R5(ctx, repo, flow):
     ok = len(sup) == 1 and any(k.arg == "deep" and dotted(k.value) == "deep" for k in sup[0].keywords)
     ctx.check(ok, "R5", "_get_params:super", "starts from super().get_params(deep=deep)", "_get_params does not start from super().get_params(deep=deep)", ctx.loc(mod, gp))
     # _replace_estimator
-    rp = repo.func(META, "_HeterogenousMetaEstimator._replace_estimator")
+    if repl_name is None:
+        raise AnalysisError("anchor missing: the component-replacement helper called from _set_params")
+    rp = meta.methods[repl_name]
     sets = [c for c in astq.calls(rp) if astq.call_name(c) == "setattr" and len(c.args) == 3 and dotted(c.args[1]) == "attr"]
+    rp_params = astq.param_names(rp, skip_self=True)
+    p_name = rp_params[1] if len(rp_params) >= 3 else "name"
+    p_val = rp_params[2] if len(rp_params) >= 3 else "new_val"
     cmp_ok = any(isinstance(n, ast.Compare) and len(n.ops) == 1 and isinstance(n.ops[0], ast.Eq)
-                 and {dotted(n.left), dotted(n.comparators[0])} >= {"name"} for n in ast.walk(rp))
-    tup_ok = any(isinstance(n, ast.Assign) and isinstance(n.value, ast.Tuple) and [dotted(e) for e in n.value.elts] == ["name", "new_val"]
+                 and {dotted(n.left), dotted(n.comparators[0])} >= {p_name} for n in ast.walk(rp))
+    tup_ok = any(isinstance(n, ast.Assign) and isinstance(n.value, ast.Tuple) and [dotted(e) for e in n.value.elts] == [p_name, p_val]
                  for n in ast.walk(rp))
     ctx.check(bool(sets) and cmp_ok and tup_ok, "R5", "_replace_estimator", "replaces the component whose name matches by (name, new_val)",
               "_replace_estimator does not replace the matching (name, value) pair and store the list back", ctx.loc(mod, rp))
@@ -742,7 +756,7 @@ def rule_R5(ctx, repo, flow):
     kinds = set()
     for n in astq.walk_no_nested(cn):
         if isinstance(n, ast.Compare) and len(n.ops) == 1:
-            src = astq.canon(n)
+            src = astq.canon(astq.inline_locals(cn, n))
             if "len(set(names))" in src and "len(names)" in src and isinstance(n.ops[0], (ast.NotEq, ast.Lt, ast.Gt, ast.Eq)):
                 kinds.add("unique")
             if isinstance(n.ops[0], (ast.In, ast.NotIn)) and astq.const_value(n.left) == "__":
